@@ -4,6 +4,7 @@
    (well-formed raw paths, valid task list) are evaluated on every path and tree the
    implementation produces during the correspondence runs (monitored premises, DESIGN C01). *)
 From KV Require Import Base Params Sort Weave WeaveProofs WeaveCheck PathProofs AssemblyProofs Api RunIntegrityProofs.
+From KV Require Pipeline CladeTasks TreeSchedule.
 Local Open Scope nat_scope.
 
 (* make_linear_sequence: deleting the gap characters of the row built from any gap vector gives
@@ -85,3 +86,37 @@ Example C01_nonvacuous :
   kpath_wfb 6 [-1;1;3;-1;4]%Z = true /\
   add_gap_info 6 [-1;1;3;-1;4]%Z = Some [34;0;1;0;2;0;33;33]%Z.
 Proof. vm_compute. repeat split; reflexivity. Qed.
+
+(* The structural half of the premise [valid_runb] of C01_assembly_integrity, discharged for every guide tree.
+   label_internal numbers the internal nodes of the guide tree in post-order from numseq, create_tasks emits one task
+   (a, b, c) per internal node, sort_tasks(TASK_ORDER_TREE) orders them by c.  For EVERY guide tree over distinct
+   leaves: at every position of that serial schedule both operands are complete (an input sequence, or the result of
+   an EARLIER task), the two operands differ, no earlier task has consumed either of them or produced c, and c is a
+   fresh internal label.  (TreeSchedule.v) *)
+Theorem C01_schedule_respects_the_guide_tree : forall t n,
+  NoDup (CladeTasks.leaves t) -> (forall i, In i (CladeTasks.leaves t) -> i < n) ->
+  forall pre a b c post,
+  Pipeline.sort_tasks (Pipeline.tasks_of (fst (Pipeline.label t n))) = (pre ++ (a, b, c) :: post)%list ->
+  (a < n \/ exists a1 a2, In (a1, a2, a) pre) /\
+  (b < n \/ exists b1 b2, In (b1, b2, b) pre) /\
+  a <> b /\ n <= c /\
+  (forall x y z, In (x, y, z) pre -> z <> c /\ x <> a /\ x <> b /\ y <> a /\ y <> b).
+Proof. exact TreeSchedule.tree_schedule_respects_dependencies. Qed.
+Print Assumptions C01_schedule_respects_the_guide_tree.
+
+(* ... and the schedule is complete: one task per internal node (leaves - 1 of them), and every label - input or
+   produced - is consumed exactly once except the root, which is what remains. *)
+Theorem C01_schedule_is_complete : forall t n,
+  NoDup (CladeTasks.leaves t) -> (forall i, In i (CladeTasks.leaves t) -> i < n) ->
+  let L := Pipeline.sort_tasks (Pipeline.tasks_of (fst (Pipeline.label t n))) in
+  length L = length (CladeTasks.leaves t) - 1 /\
+  Permutation.Permutation (Pipeline.lid (fst (Pipeline.label t n)) :: TreeSchedule.kids L)
+                          (CladeTasks.leaves t ++ map TreeSchedule.tc L).
+Proof. exact TreeSchedule.tree_schedule_is_complete. Qed.
+Print Assumptions C01_schedule_is_complete.
+
+Example C01_schedule_nonvacuous :
+  let t := Pipeline.UNode (Pipeline.UNode (Pipeline.ULeaf 3) (Pipeline.ULeaf 0)) (Pipeline.UNode (Pipeline.ULeaf 2) (Pipeline.UNode (Pipeline.ULeaf 1) (Pipeline.ULeaf 4))) in
+  Pipeline.tasks_of (fst (Pipeline.label t 5)) = [(5, 7, 8); (3, 0, 5); (2, 6, 7); (1, 4, 6)] /\
+  Pipeline.sort_tasks (Pipeline.tasks_of (fst (Pipeline.label t 5))) = [(3, 0, 5); (1, 4, 6); (2, 6, 7); (5, 7, 8)].
+Proof. vm_compute. split; reflexivity. Qed.
